@@ -46,15 +46,18 @@ def view_stage(work, res, tier, prefixes, replay=None):
         per = max(1, min(vlib.NCPU, 16) // len(models))
 
         def pipeline(i):
-            r = vlib.model_check(work, "MVcfg", models[i], workers=per)
-            log("model %s: %d states, %d transitions, %.0fs" % (models[i], r["states"], r["transitions"], r["wall_s"]))
             edges = work.path("edges_%s.ndjson" % gens[i][:-4])
-            n = vlib.generate(work, "MVcfg", gens[i], edges)
-            log("generated %d edges from %s" % (n, gens[i]))
+            with ThreadPoolExecutor(max_workers=2) as ex2:     # model check and edge generation side by side
+                fm = ex2.submit(vlib.model_check, work, "MVcfg", models[i], 1800, max(1, per - 1))
+                fg = ex2.submit(vlib.generate, work, "MVcfg", gens[i], edges)
+                r, n = fm.result(), fg.result()
+            log("model %s: %d states, %d transitions, %.0fs; %d edges generated" %
+                (models[i], r["states"], r["transitions"], r["wall_s"], n))
             out = []
             for v in variants[i]:
-                tr = replay_edges(work, binp, edges, v, per)
+                tr = replay_edges(work, binp, edges, v, per, sample=(0.34 if tier == "quick" and v > 0 else 1.0))
                 tr["judged"] = judge_chunked(work, tr["trace"], per)
+                log("judged %d lines of %s (variant %s)" % (tr["judged"]["lines"], gens[i], tr["variant"]))
                 out.append(tr)
             return r, out
 
@@ -120,8 +123,18 @@ def view_stage(work, res, tier, prefixes, replay=None):
     return nverd
 
 
-def replay_edges(work, binp, edges, variant, nshards):
+def replay_edges(work, binp, edges, variant, nshards, sample=1.0):
     d = work.sub("replay")
+    if sample < 1.0:
+        # further concretisations in the quick tier: a seeded sample of the edges
+        import random
+        rng = random.Random(vlib.SEED * 7919 + variant)
+        sub = os.path.join(d, "edges_sample.ndjson")
+        with open(edges) as fh, open(sub, "w") as out:
+            for line in fh:
+                if rng.random() < sample:
+                    out.write(line)
+        edges = sub
     with open(edges) as fh:
         total = sum(1 for _ in fh)
     nshards = max(1, min(nshards, total // 200 + 1))
